@@ -58,7 +58,7 @@ Section ListFacts.
 
   Lemma elem_at_Some (v : list A) k y : elem_at v k = Some y -> 0 <= k < Z.of_nat (length v).
   Proof.
-    unfold elem_at. destruct (Z.ltb_spec k 0); [discriminate|]. intro H.
+    unfold elem_at. destruct (Z.ltb_spec k 0); [discriminate|]. intro Hs.
     assert (Hn : nth_error v (Z.to_nat k) <> None) by congruence.
     apply nth_error_Some in Hn. lia.
   Qed.
@@ -172,7 +172,7 @@ Section Overlay.
                 unfold oe. destruct (elem_at r (Z.of_nat (Z.to_nat (i + off)) - off - (i + 1))) eqn:E; [|reflexivity].
                 apply elem_at_Some in E. lia.
              ++ now rewrite (Hval n x Hn).
-          -- rewrite Hinv. split; [|intros _; left; left; reflexivity].
+          -- rewrite Hinv. split; [|intros _; left; reflexivity].
              intros _. right. exists (Z.to_nat (i + off)), x0. split; [exact Hx0|].
              rewrite oe_cons. destruct (Z.eqb_spec (Z.of_nat (Z.to_nat (i + off)) - off - i) 0); [exact Hop|lia].
       + (* the top element does not lie over the second vector *)
